@@ -3,7 +3,7 @@
 import json, sys
 
 BASELINE = ("cd /repo && cargo nextest run --workspace --no-fail-fast --tool-config-file pb:/w/lib/nextest.toml "
-            "--profile pb --test-threads 8 --offline || cargo test --workspace --no-fail-fast --offline")
+            "--profile pb --test-threads 8 --offline")
 
 CLAIMED = {
  "C02": dict(
@@ -119,7 +119,7 @@ def main():
             "guard": "zerv_verif",
             "enable": "none needed: zerv already has the seams (git resolved through PATH, dynamically linked libc clock, stdio, environment); checks build /repo unmodified with `cargo build --offline --bin zerv`",
             "baseline_off_cmd": BASELINE,
-            "source_commits": [],
+            "source_commits": [],  # no hook commits: the seams already exist (PATH lookup of git, dynamic libc clock, stdio, environment)
             "add_only": True,
         },
         "engines": [{
